@@ -12,6 +12,12 @@ CHECKS = {
  "C11": ("model_checking", "explicit-state BFS to closure on the real mem subscription store (shared groups) vs reference membership table",
   "BFS to closure over join/leave alphabets (Subscribe / Unsubscribe / UnsubscribeAll, 3 clients, shared and non-shared filters on overlapping topics, same client in several groups) on the real store; in every state the candidate members per (group, filter) for every probe topic must equal the reference membership.",
   "Trusted: refmqtt matcher, state dump. The wire-level part (exactly one member receives, every rand.Intn pick enumerated) is described in DESIGN.md and added as it is built.", "DESIGN.md 8/C11"),
+ "C04": ("model_checking", "exhaustive scenario-tree enumeration (all publisher event sequences to a depth) on the real in-process broker under a cooperative scheduler, reference 'awaiting PUBREL' set as oracle",
+  "All sequences of QoS2 publish (2 ids, DUP retransmissions) / PUBREL / QoS1 publish / cut+reconnect (clean 0, clean 1) / take-over events up to depth 5 (quick) / 7 (thorough), for a v5 and a v3.1.1 publisher, run on a fresh real broker each; after every event the acks and the messages forwarded to an independent subscriber must equal the reference model.",
+  "Default schedule only (0 scheduling deviations): C04 quantifies over histories, not schedules. Trusted: vsched/memconn semantics, refmqtt codec. redis unack store is exercised by C09.", "DESIGN.md 8/C04"),
+ "C07": ("model_checking", "explicit-state BFS to closure on the real retained trie store vs map + reference matcher",
+  "BFS to closure over AddOrReplace/Remove/ClearAll on the real retained store (topics incl. prefixes of each other, empty levels, $-topics); every state: GetRetainedMessage, GetMatchedMessages for every filter of the C02 universe, Iterate, and copy-independence of results. Wire-level replay-on-subscribe enumeration is added as built (DESIGN.md).",
+  "Trusted: refmqtt matcher, state dump.", "DESIGN.md 8/C07"),
 }
 NA_DEFAULT = "check not built yet in this session (planned design in DESIGN.md section 8)"
 
